@@ -248,6 +248,31 @@ fn man_checks(level: &CmdSpec, inherited_globals: &[&ArgSpec], page: &str) -> Op
         if !found {
             return Some(("visible-missing", if a.is_positional() { "positional".into() } else { "option".into() }, format!("argument {} is not named in the man page", a.id)));
         }
+        // named in the listing too, not only in the SYNOPSIS: an entry line right after a `.TP`
+        let lines: Vec<&str> = plain.lines().collect();
+        let has_entry = lines.windows(2).any(|w| {
+            if w[0].trim() != ".TP" {
+                return false;
+            }
+            let l = w[1];
+            if a.is_positional() {
+                let names: Vec<String> = if a.value_names.is_empty() { vec![a.id.clone()] } else { a.value_names.clone() };
+                names.iter().any(|n| l.starts_with(&format!("[{n}")) || l.starts_with(&format!("<{n}")))
+            } else {
+                a.long.as_ref().map(|x| contains_token(l, &format!("--{x}"))).unwrap_or(false) || a.short.map(|c| l.starts_with(&format!("-{c}"))).unwrap_or(false)
+            }
+        });
+        if !has_entry {
+            return Some(("visible-missing", if a.is_positional() { "positional-entry".into() } else { "option-entry".into() }, format!("argument {} appears in the page but has no entry of its own (no `.TP` item) in any options section", a.id)));
+        }
+        // its help text is part of that entry
+        if a.long_help.is_none() && !a.hide_short_help {
+            if let Some(tag) = a.help.as_ref().and_then(|h| h.split_whitespace().find(|w| w.starts_with("hlp") && w.len() == 6 && w[3..].chars().all(|c| c.is_ascii_digit()))) {
+                if !plain.contains(tag) {
+                    return Some(("visible-missing", "help-text".into(), format!("the help text of argument {} ({tag}) is missing from the page", a.id)));
+                }
+            }
+        }
     }
     for s in &level.subs {
         let listed = plain.lines().any(|l| l.ends_with(&format!("-{}(1)", s.name)));
